@@ -125,11 +125,17 @@ fn generate(cli: &Cli) -> Vec<Seq> {
     let len = if cli.tier == Tier::Quick { 56 } else { 160 };
     for i in 0..n {
         let mut rng = Rng::stream(cli.seed, 150_000 + i);
-        let proxy = match i % 4 {
-            0 => None,
-            1 => Some((true, true)),
-            2 => Some((false, true)),
-            _ => Some((true, false)),
+        // (every fifth: the section is there and switches both versions off - PROXY protocol is
+        // required and no header can satisfy it: nobody is served)
+        let proxy = if i % 5 == 4 {
+            Some((false, false))
+        } else {
+            match i % 4 {
+                0 => None,
+                1 => Some((true, true)),
+                2 => Some((false, true)),
+                _ => Some((true, false)),
+            }
         };
         let limit = *rng.pick(&[1usize, 2, 5]);
         let peers: Vec<IpAddr> = vec!["127.0.0.1".parse().expect("ip"), "127.0.0.2".parse().expect("ip"), "127.0.0.3".parse().expect("ip")];
@@ -195,7 +201,7 @@ fn generate(cli: &Cli) -> Vec<Seq> {
                 conns.push(Conn { peer_ip: peer, header, login: false, abort: false });
             }
         }
-        let burst = if i % 4 != 3 {
+        let burst = if i % 4 != 3 && proxy != Some((false, false)) {
             let mut b: SocketAddr = "192.0.2.99:5000".parse().expect("addr");
             b.set_port(rng.range(1024, 65000) as u16);
             // many simultaneous arrivals: whatever guards the limiter must hold under contention
@@ -330,8 +336,13 @@ async fn run_seq(seq: &Seq) -> SeqOutcome {
             }
         }
         let _kill_at_end = KillAtEnd(&end);
+        let (allow_v1, allow_v2) = seq.proxy.unwrap_or((true, true));
         let effective: Option<SocketAddr> = match &c.header {
-            Header::NotUsed | Header::V2Local | Header::V1Unknown => Some(peer),
+            Header::NotUsed => Some(peer),
+            // a header of a version the listener has switched off is no valid header
+            Header::V1Unknown | Header::V1(_) | Header::V1Split(..) if !allow_v1 => None,
+            Header::V2Local | Header::V2(_) | Header::V2Split(..) if !allow_v2 => None,
+            Header::V2Local | Header::V1Unknown => Some(peer),
             Header::V1(s) | Header::V2(s) | Header::V1Split(s, _) | Header::V2Split(s, _) => Some(*s),
             _ => None,
         };
